@@ -7,17 +7,31 @@ Known finding KF2 (EBCDIC-1047 bytes that decode to non-ASCII runes) is excluded
 `Accepted` predicate and witnessed by `kf2_witness`.
 -/
 import Iso8583.Lemmas.MessageRT
+import Iso8583.Lemmas.PrimRepack
 
 namespace Iso8583.C02
 open Iso8583 MessageRT
 
-/-- the value of an EBCDIC-1047 encoded primitive is plain ASCII (the complement is the
-known finding KF2) -/
-def NotKF2 (f : Field) (v : Value) : Prop :=
-  match f, v with
-  | .prim s, .str b => s.enc = .ebcdic1047 → ∀ c ∈ b, c.toNat < 128
-  | .prim s, .bin b => s.enc = .ebcdic1047 → ∀ c ∈ b, c.toNat < 128
-  | _, _ => True
+/-- what the theorems accept: the value of an EBCDIC-1047 encoded primitive is plain ASCII
+(the complement is the known finding KF2) and its text fits a Go slice -/
+def Accepted (f : Field) (v : Value) : Prop :=
+  match f with
+  | .prim s => PrimSpec.NotKF2 s v ∧ PrimSpec.ValueFits v
+  | .comp _ _ => True
+
+/-- **Primitive fields re-pack**: whatever a coherent primitive field's Unpack returns
+(KF2 aside) is in-domain, canonical, and Pack succeeds on it (Lemmas/PrimRepack.lean). -/
+theorem prim_field_repack (s : PrimSpec) (lp : Bool) : FieldRepack Accepted (.prim s) lp := by
+  intro data v r hc hu hacc
+  have hc' : s.coherent lp = true := by simpa [Field.coherent] using hc
+  have hu' : s.unpack data = .ok (v, r) := by
+    simp only [Field.unpack] at hu
+    cases h : s.unpack data with
+    | ok q => rw [h] at hu; simp only [UR.ok.injEq] at hu; rw [hu]
+    | err => rw [h] at hu; cases hu
+    | panic => rw [h] at hu; cases hu
+  obtain ⟨h1, h2, bs, h3⟩ := PrimSpec.prim_unpack_repack s lp data v r hc' hu' hacc.1 hacc.2
+  exact ⟨h1, by simpa [Field.canon] using h2, bs, by simpa [Field.pack] using h3⟩
 
 /-- **The full-strength statement** (no exclusion): every accepted byte string re-packs to
 bytes that are accepted again, decode to the same content and re-pack to themselves. -/
@@ -80,9 +94,10 @@ theorem kf2_witness :
   decide +kernel
 
 /-! Non-vacuity -/
-example : NotKF2 (.prim kf2Spec) (.str [0x41, 0x42]) := by
-  intro _ c hc; simp at hc; rcases hc with rfl | rfl <;> decide
-example : ¬ NotKF2 (.prim kf2Spec) (.str [0xC2, 0xA2]) := by
-  intro h; have := h rfl 0xC2 (by simp); revert this; decide
+example : Accepted (.prim kf2Spec) (.str [0x41, 0x42]) := by
+  refine ⟨?_, ?_⟩
+  · intro _ c hc; simp at hc; rcases hc with rfl | rfl <;> decide
+  · show ([0x41, 0x42] : Bytes).length ≤ maxInt
+    decide
 
 end Iso8583.C02
